@@ -11,7 +11,8 @@ VERIF = os.path.dirname(os.path.dirname(os.path.abspath(__file__)))
 REPO = os.environ.get("LPV_REPO", "/repo")
 LEAN = os.path.join(VERIF, "lean")
 HARNESS = os.path.join(VERIF, "harness")
-CACHE = os.path.join(VERIF, ".cache")
+CACHE = os.environ.get("LPV_CACHE", os.path.join(VERIF, ".cache"))     # sanitised library builds (content addressed)
+LOCKDIR = os.path.join(VERIF, ".cache")                                  # lake is serialised across concurrent checks
 GUARD = "LIBPOLY_VERIF"
 ALLOWED_AXIOMS = {"propext", "Classical.choice", "Quot.sound"}
 FORBIDDEN = re.compile(r"\bsorry\b|\badmit\b|^\s*axiom\s|native_decide|bv_decide|implemented_by|\bunsafe\s|maxHeartbeats\s+0\b")
@@ -159,8 +160,8 @@ _lake_lock = None
 
 
 def lake(args, timeout=3600):
-    os.makedirs(CACHE, exist_ok=True)
-    lock = open(os.path.join(CACHE, "lake.lock"), "w")
+    os.makedirs(LOCKDIR, exist_ok=True)
+    lock = open(os.path.join(LOCKDIR, "lake.lock"), "w")
     fcntl.flock(lock, fcntl.LOCK_EX)
     try:
         return run(["lake"] + args, cwd=LEAN, timeout=timeout)
